@@ -229,6 +229,77 @@ fn uniform_config(flavour: usize, len: usize, n: u64, seed: u64, rep: &mut Repor
     t.finish(rep);
 }
 
+/// Independence at *every* distance, not only between neighbours: for each lag L one pair
+/// (i, i+L) per draw (so the trials of a category are independent across draws) must show
+/// the joint event with frequency p*p. Catches generators that recycle random bits with
+/// some period (e.g. one 64-bit word of coins reused every 64 positions).
+pub fn lag_independence(sig: &str, cfg: String, len: usize, p: f64, n: u64, rep: &mut Report, mut draw: impl FnMut() -> Vec<bool>) {
+    let mut joint = vec![0u64; len];
+    let mut same = vec![0u64; len];
+    for d in 0..n {
+        rep.eval();
+        let ev = draw();
+        if ev.len() != len {
+            rep.violation(format!("{sig}/length"), || json!({"config": cfg, "length": ev.len()}));
+            return;
+        }
+        for lag in 1..len {
+            let i = (d as usize).wrapping_mul(7919) % (len - lag);
+            if ev[i] && ev[i + lag] {
+                joint[lag] += 1;
+            }
+            if ev[i] == ev[i + lag] {
+                same[lag] += 1;
+            }
+        }
+    }
+    let mut t = Table::new(cfg);
+    let mut worst: (f64, usize) = (0.0, 0);
+    for lag in 1..len {
+        let c = check(format!("{}: positions at distance {lag} both selected", t.config), n, joint[lag], p * p);
+        let c2 = check(format!("{}: positions at distance {lag} decided alike", t.config), n, same[lag], p * p + (1.0 - p) * (1.0 - p));
+        let dev = (joint[lag] as f64 / n as f64 - p * p).abs();
+        if dev > worst.0 {
+            worst = (dev, lag);
+        }
+        for c in [c, c2] {
+            if !c.ok {
+                let cfg = t.config.clone();
+                rep.violation(format!("{sig}/positions-not-independent"), || json!({"config": cfg, "distance": lag, "check": c.to_json()}));
+            } else if t.rows.len() < 6 {
+                t.rows.push(c.to_json());
+            }
+        }
+    }
+    t.rows.push(json!({"category": "largest deviation of the joint frequency over all distances", "deviation": worst.0, "at_distance": worst.1, "distances_checked": len - 1}));
+    t.finish(rep);
+}
+
+pub fn uniform_xo_lags(sig: &str, flavour: usize, len: usize, n: u64, seed: u64, rep: &mut Report) {
+    let names = ["[Vec;2]", "(Vec,Vec)", "[Bitstring;2]", "(Bitstring,Bitstring)"];
+    let cfg = format!("UniformXo {} len={len}: independence at every distance", names[flavour]);
+    let mut rng = TraceRng::derive(seed, "lags-uxo", fnv_str(&cfg));
+    lag_independence(sig, cfg, len, 0.5, n, rep, || match flavour {
+        0 => UniformXo.recombine([vec![0u8; len], vec![1u8; len]], &mut rng).unwrap().iter().map(|x| *x == 0).collect(),
+        1 => UniformXo.recombine((vec![0u8; len], vec![1u8; len]), &mut rng).unwrap().iter().map(|x| *x == 0).collect(),
+        2 => UniformXo.recombine([Bitstring { bits: vec![false; len] }, Bitstring { bits: vec![true; len] }], &mut rng).unwrap().bits.iter().map(|x| !*x).collect(),
+        _ => UniformXo.recombine((Bitstring { bits: vec![false; len] }, Bitstring { bits: vec![true; len] }), &mut rng).unwrap().bits.iter().map(|x| !*x).collect(),
+    });
+}
+
+fn flip_lags(kind: usize, len: usize, n: u64, seed: u64, rep: &mut Report) {
+    let names = ["WithRate(0.3)/Vec<bool>", "WithRate(0.3)/Bitstring", "Bitstring::random", "Bitstring::random_with_probability(0.3)"];
+    let cfg = format!("{} len={len}: independence at every distance", names[kind]);
+    let mut rng = TraceRng::derive(seed, "lags-flip", fnv_str(&cfg));
+    let p = if kind == 2 { 0.5 } else { 0.3f32 as f64 };
+    lag_independence("C12/lag", cfg, len, p, n, rep, || match kind {
+        0 => WithRate::new(0.3).mutate(vec![false; len], &mut rng).unwrap(),
+        1 => WithRate::new(0.3).mutate(Bitstring { bits: vec![false; len] }, &mut rng).unwrap().bits,
+        2 => Bitstring::random(len, &mut rng).bits,
+        _ => Bitstring::random_with_probability(len, 0.3, &mut rng).bits,
+    });
+}
+
 fn bitstring_config(which: usize, p: f64, len: usize, n: u64, seed: u64, rep: &mut Report) {
     let names = ["Bitstring::random", "Bitstring::random_with_probability", "BoolGenerator collection"];
     let cfg = format!("{} p={p} len={len}", names[which]);
@@ -371,6 +442,8 @@ enum Cfg {
     Uniform(usize, usize),
     Bits(usize, f64, usize),
     Gene(usize, Option<f32>, bool, bool),
+    UniformLags(usize, usize),
+    FlipLags(usize, usize),
 }
 
 pub fn run(args: &Args) -> i32 {
@@ -414,6 +487,14 @@ pub fn run(args: &Args) -> i32 {
             cfgs.push(Cfg::Bits(2, p, len));
         }
     }
+    for fl in 0..4 {
+        for len in [70usize, 130] {
+            cfgs.push(Cfg::UniformLags(fl, len));
+        }
+    }
+    for kind in 0..4 {
+        cfgs.push(Cfg::FlipLags(kind, 130));
+    }
     for n_instr in 1..=8usize {
         cfgs.push(Cfg::Gene(n_instr, None, false, false));
     }
@@ -431,6 +512,8 @@ pub fn run(args: &Args) -> i32 {
             Cfg::Uniform(fl, len) => uniform_config(*fl, *len, n / (*len as u64).clamp(1, 8), args.seed, &mut rep),
             Cfg::Bits(w, p, len) => bitstring_config(*w, *p, *len, n / (*len as u64).clamp(1, 8), args.seed, &mut rep),
             Cfg::Gene(k, c, s, v) => gene_config(*k, *c, *s, *v, n, args.seed, &mut rep),
+            Cfg::UniformLags(fl, len) => uniform_xo_lags("C12/uniform-xo", *fl, *len, n / 10, args.seed, &mut rep),
+            Cfg::FlipLags(kind, len) => flip_lags(*kind, *len, n / 10, args.seed, &mut rep),
         }
         rep
     });
